@@ -94,3 +94,49 @@ func vPutCredit(s *vStores, wid string, c *credit) {
 	s.c.Set(keyCredit(&c.outPoint.Hash, c.outPoint.Index, c.block), v)
 	s.u.Set(canonicalUnspentKey(wid, &c.outPoint.Hash, c.outPoint.Index), valueUnspent(c.block))
 }
+
+// VerifStores: the real stores over a fresh model database, for harnesses of package masswallet.
+type VerifStores struct {
+	DB      *mdb.DB
+	Meta    *StoreBucketMeta
+	Utxo    *UtxoStore
+	Tx      *TxStore
+	Sync    *SyncStore
+	Ks      *keystore.KeystoreManager
+	Bal, WS *mdb.Bucket
+	Root    *mdb.Bucket
+}
+
+// VerifNewStoresWithKeystoreManager builds the stores and a real (empty) keystore manager in the same database.
+func VerifNewStoresWithKeystoreManager(pubPass []byte) *VerifStores {
+	s := verifNewStores(verifWID)
+	root := s.db.Top("wallet")
+	root.Sub("km").Sub("aid") // the buckets NewKeystoreManager creates inside the opening transaction
+	ks, err := keystore.NewKeystoreManager(root, pubPass, config.ChainParams)
+	rt.Assert(err == nil, "harness-keystore-manager")
+	s.utxo.ksmgr, s.tx.ksmgr = ks, ks
+	return &VerifStores{DB: s.db, Meta: s.meta, Utxo: s.utxo, Tx: s.tx, Sync: s.sync, Ks: ks, Bal: s.bal, WS: s.ws, Root: root}
+}
+
+// VerifSetSyncedChain writes the synced-chain records of the given blocks (consecutive heights, lowest first)
+// straight into the sync bucket and points "synced to" at the last one.
+func (v *VerifStores) VerifSetSyncedChain(chain []BlockMeta) {
+	sy := v.Root.Sub(syncBucketName)
+	for _, bm := range chain {
+		val := make([]byte, 36)
+		copy(val, bm.Hash[:])
+		sy.Set(vHeightKey(bm.Height), val)
+	}
+	sy.Set([]byte(syncedToName), vHeightKey(chain[len(chain)-1].Height))
+}
+
+// VerifSyncedRecord: the hash recorded for a height (nil if none); VerifSyncedToHeight: the pointer.
+func (v *VerifStores) VerifSyncedRecord(height uint64) []byte {
+	return v.Root.Sub(syncBucketName).Lookup(vHeightKey(height))
+}
+
+func (v *VerifStores) VerifSyncedToHeight() []byte {
+	return v.Root.Sub(syncBucketName).Lookup([]byte(syncedToName))
+}
+
+func (v *VerifStores) VerifSyncRecords() int { return len(v.Root.Sub(syncBucketName).Ents) }
